@@ -325,8 +325,8 @@ func (l *Lexer) readNumber(ch byte) (token.Type, string) {
 	// Fractional part
 	if l.peekChar() == '.' {
 		if dotSeen {
-			// Stop if we see another dot
-			return t, string(l.input[pos : l.pos-1])
+			// Stop if we see another dot (which is left for the next token)
+			return t, string(l.input[pos:l.pos])
 		}
 		t = token.FLOAT
 		l.pos++
